@@ -27,6 +27,7 @@ import (
 	"net/url"
 	"os"
 	"path"
+	"path/filepath"
 	"sort"
 	"strconv"
 	"strings"
@@ -607,6 +608,15 @@ func (b Browse) ServeArchive(w http.ResponseWriter, r *http.Request, dirPath str
 
 		if path == dirPath {
 			return nil // Skip the containing directory
+		}
+
+		// hidden files (e.g. the Casketfile) are not listed, so they
+		// must not be archived either; skip a hidden directory entirely
+		if bc.Fs.IsHidden(info) {
+			if info.IsDir() {
+				return filepath.SkipDir
+			}
+			return nil
 		}
 
 		var file io.ReadCloser
